@@ -1,12 +1,112 @@
-"""C23 - the API series cache returns correctly placed, fresh data under concurrency. (work in progress)"""
-import json, os, re
+"""C23 - the API series cache returns correctly placed, fresh data under concurrency.
+
+Two layers, so that the verdict never hinges on the model of the mechanism:
+
+Layer 1  SeriesCacheAbs.tla: the property itself over the externally observable, totally ordered
+         events Get/Load/Inv Begin/End, Quiesce, Emptied (placement, "exactly the rows of one
+         successful load", freshness, termination, accounting zero when emptied).
+         I->S: SeriesCacheAbsTrace.tla validates the event logs of the real cache2 recorded by
+         (a) a seeded random concurrent driver (many goroutines of Get with chunk-straddling
+         ranges, play modes, forced loads, invalidate, setLimits with the real trim goroutine,
+         reset, loads of random duration, failures, inflight-memory announcements, randomly held
+         "loaded, not yet published" gates) and (b) a schedule driver that replays interleavings.
+Layer 2  SeriesCache.tla: the protocol of one bucket transcribed from tscache2.go (init /
+         maybeAddChunk / awaitCopyChunks, loadChunks split at the points where others can
+         interleave, invalidate split at its clock read, trim, accounting); TLC checks exhaustively
+         that it implies layer 1, that every awaiter is answered exactly once, that the accounting
+         equals the attached data and that every request returns under fairness.
+         SeriesCacheMem.tla: the memory-limit protocol (allocCond / trimCond / inflight bytes):
+         every request finishes.
+         The configurations that describe the code BEFORE the repairs made for this property must
+         fail (non-vacuity); the schedules of their counterexamples, hand-written scenarios and
+         simulated behaviours of the repaired model drive the real code (S->I as schedule hints;
+         the outcome is judged by layer 1 only)."""
+import json, os, random, re
 from concurrent.futures import ThreadPoolExecutor
 from vlib import Infra
+
+SCENARIOS = os.path.join(os.path.dirname(os.path.abspath(__file__)), "C23_scenarios.json")
+
+# (cfg, what, expected violation or None, thorough only)
+PROTOCOL_RUNS = [
+    ("SeriesCache_mc.cfg", "protocol: 2 chunks x 2 slots, 2 requests (all edge ranges), 1 invalidation, 1 trim, 1 failure", None, False),
+    ("SeriesCache_mc1.cfg", "protocol: 1 chunk, 2 requests, 2 invalidations, trim, failure, play/forced requests", None, False),
+    ("SeriesCache_live.cfg", "liveness: every request returns (fair loaders)", None, False),
+    ("SeriesCache_orig_await.cfg", "before the repair: a request joins a load that finished before the invalidation", "invariant:CexExport", False),
+    ("SeriesCache_mc_big.cfg", "protocol: 2 chunks x 2 slots, 3 requests, 1 invalidation, 1 trim, 1 failure", None, True),
+    ("SeriesCache_mc_gap_big.cfg", "protocol: 3 chunks, 3 requests (gap chunks: several loads of one chunk in flight)", None, True),
+    ("SeriesCache_mc_inv2_big.cfg", "protocol: 1 chunk, 3 requests, 2 invalidations", None, True),
+    ("SeriesCache_mc_play_big.cfg", "protocol: play mode (stale accepted) and forced loads", None, True),
+    ("SeriesCache_mc_open_big.cfg", "protocol: last chunk still open (always reloaded)", None, True),
+    ("SeriesCache_mc_linger_big.cfg", "protocol: last chunk in the linger period (served and reloaded)", None, True),
+    ("SeriesCache_live_big.cfg", "liveness big", None, True),
+    ("SeriesCache_orig_publish.cfg", "before the repair: a load superseded through a gap chunk publishes", "invariant:CexExport", True),
+    ("SeriesCache_half_await.cfg", "half repair (only maybeAddChunk): superseded loads still publish", "invariant:CexExport", True),
+]
+MEM_RUNS = [
+    ("SeriesCacheMem_mc.cfg", "memory limits: 2 loads, hard 3 / soft 2", None, False),
+    ("SeriesCacheMem_orig.cfg", "before the repair: two loads over the hard limit sleep forever", "invariant:NoStuck", False),
+    ("SeriesCacheMem_mc2.cfg", "memory limits: 3 loads announcing twice, hard 3 / soft 2", None, False),
+    ("SeriesCacheMem_mc3_big.cfg", "memory limits: 3 loads, hard 4 / soft 2", None, True),
+    ("SeriesCacheMem_mc4_big.cfg", "memory limits: 3 loads, hard 2 / soft 1, empty cache", None, True),
+    ("SeriesCacheMem_nolimit_big.cfg", "no limits", None, True),
+    ("SeriesCacheMem_orig2.cfg", "before the repair: trim sleeps over the soft limit", "property", True),
+]
+
+
+def model_checks(ctx):
+    th = ctx.thorough
+    cex = []
+    demo = {}
+    for module, runs in (("SeriesCacheMC", PROTOCOL_RUNS), ("SeriesCacheMem", MEM_RUNS)):
+        for cfg, what, want, big in runs:
+            if big and not th:
+                continue
+            res = ctx.tlc(module, cfg, timeout=3000 if th else 900, name=what, expect_violation=bool(want),
+                          coverage=(th and cfg == "SeriesCache_mc_big.cfg"), workers=8)
+            ctx.log("%s: %d states, %d distinct, %.0fs%s" % (cfg, res.generated, res.distinct, res.wall,
+                                                                  " -> " + str(res.violated) if res.violated else ""))
+            if want:
+                if res.violated != want:
+                    raise Infra("specification lost its teeth: %s should give %s, got %s" % (cfg, want, res.violated))
+                demo[cfg] = res.violated
+                for b in res.behaviours[:3]:
+                    cex.append((cfg, b))
+            else:
+                ctx.require_model_ok(res, what)
+    ctx.ev.set("exhaustive", True)
+    ctx.ev.set("expected_model_counterexamples", demo)
+    return cex
+
+
+CFG_CS = {"SeriesCache_orig_await.cfg": 2, "SeriesCache_orig_publish.cfg": 1, "SeriesCache_half_await.cfg": 2,
+          "SeriesCache_beh.cfg": 2, "SeriesCache_beh3.cfg": 1}
+
+
+def simulated_behaviours(ctx, cfg, num, depth, want):
+    beh = ctx.tlc("SeriesCacheMC", cfg, simulate=(num, depth), timeout=900, name="behaviour export (simulation) " + cfg)
+    ctx.require_model_ok(beh, "behaviour export")
+    bs = beh.behaviours
+    out, seen = [], set()
+    for i, b in enumerate(bs):
+        if i + 1 < len(bs) and len(bs[i + 1]) > len(b):
+            continue  # a prefix of the next one
+        if sum(1 for s in b if s.get("a") == "Start") < 2:
+            continue
+        k = json.dumps(b, sort_keys=True)
+        if k not in seen:
+            seen.add(k)
+            out.append(b)
+    rnd = random.Random(ctx.seed)
+    rnd.shuffle(out)
+    # prefer schedules with an invalidation between a load and a later request
+    out.sort(key=lambda b: -min(3, sum(1 for s in b if s.get("a") in ("InvApply", "Trim")) + sum(1 for s in b if s.get("a") == "LoadEnd" and not s.get("ok"))))
+    return out[:want]
 
 
 def validate(ctx, path, name):
     return ctx.tlc("SeriesCacheAbsTrace", "SeriesCacheAbsTrace.cfg", workers=1, files={"trace.ndjson": path},
-                   timeout=1800, name=name, expect_violation=True, heap="4g")
+                   timeout=2400, name=name, expect_violation=True, heap="4g")
 
 
 def run_at(path, line):
@@ -17,7 +117,7 @@ def run_at(path, line):
                 d = json.loads(l)
                 run, cfg = d.get("run"), d.get("cfg")
             if i == line:
-                ev = l.strip()[:400]
+                ev = l.strip()[:500]
                 break
     return run, cfg, ev
 
@@ -32,6 +132,9 @@ def judge_traces(ctx, files, stage):
             accepted += nrun
             continue
         keep = ctx.save("%s_rejected_trace_%d.ndjson" % (stage, i), open(path).read())
+        tv2 = validate(ctx, keep, "%s trace re-validation %d" % (stage, i))
+        if tv2.violated != tv.violated:
+            raise Infra("trace rejection not reproducible (%s vs %s)" % (tv.violated, tv2.violated))
         where = [l for l in tv.printed if "TRACE_REJECTED" in l]
         line = int(re.search(r"(\d+)>>", where[0]).group(1)) if where else None
         if line and tv.violated.startswith("invariant"):
@@ -40,24 +143,95 @@ def judge_traces(ctx, files, stage):
         sig = tv.violated if tv.violated.startswith("invariant") else "trace-rejected"
         ctx.violation(sig, "real cache2 execution violates %s at trace line %s (run %s %s): %s" % (
             tv.violated, line, run, json.dumps(cfg), ev), keep)
-    return accepted
+        # runs before the rejected one were accepted
+        accepted += sum(1 for j, l in enumerate(open(path), 1) if '"ev":"Reset"' in l and line and j < line) - 1
+    return max(accepted, 0)
+
+
+def drive(ctx, test, stage, **kw):
+    res, out, rc = ctx.go_test("internal/api", test, **kw)
+    if res is None and "panic:" in out:
+        # a panic on a goroutine of the cache (trim, loadChunks) kills the test binary
+        i = out.find("panic:")
+        head = out[i:i + 6000]
+        first = head.split("\n\n")[0] + "\n" + (head.split("\n\n")[1] if "\n\n" in head else "")
+        p = ctx.save("%s_panic.log" % stage, out[max(0, i - 2000):i + 30000])
+        if "tscache2" in first and "verif_c23" not in first.split("tscache2")[0][-400:]:
+            ctx.violation("panic", "the cache panics: %s" % head.split("\n")[0][:300], p)
+            return None
+        raise Infra("driver %s died: %s" % (test, p))
+    res = ctx.need_result(res, out, rc, test)
+    for k, mm in enumerate((res.get("mismatches") or [])[:5]):
+        p = ctx.save("%s_go_witness_%d.json" % (stage, k), mm)
+        ctx.violation(mm.get("sig") or "go", "%s: %s want %s got %s" % (stage, mm.get("note") or "direct check on the real cache",
+                                                                          mm.get("want"), json.dumps(mm.get("got"))[:400]), p)
+    for n in (res.get("notes") or [])[:4]:
+        ctx.log("note:", n[:2500])
+    return res
 
 
 def run(ctx):
     th = ctx.thorough
-    env = {"VERIF_C23_LANES": 8 if th else 4, "VERIF_C23_NRUNS": 60 if th else 12,
-           "VERIF_C23_RESET": os.environ.get("VERIF_C23_RESET", "1"), "VERIF_C23_INFLIGHT": os.environ.get("VERIF_C23_INFLIGHT", "1")}
-    res, out, rc = ctx.go_test("internal/api", "TestVerifC23Random", env=env, timeout=1500)
-    if res is None and "panic:" in out:
-        p = ctx.save("driver_panic.log", out[-30000:])
-        raise Infra("driver died: %s" % p)
-    res = ctx.need_result(res, out, rc, "TestVerifC23Random")
-    for mm in (res.get("mismatches") or [])[:5]:
-        p = ctx.save("go_mismatch.json", mm)
-        ctx.violation(mm.get("sig") or "go", "direct check on returned rows: want %s got %s" % (mm.get("want"), json.dumps(mm.get("got"))[:400]), p)
-    for n in res.get("notes", [])[:5]:
-        ctx.log("note:", n[:3000])
-    acc = judge_traces(ctx, res["files"], "random")
-    ctx.ev.add_impl("random concurrent runs accepted by SeriesCacheAbsTrace", acc, steps=res["steps"], distinct_classes=res.get("distinct"))
-    for s in res.get("samples", [])[:3]:
-        ctx.ev.sample(s)
+    dev = os.environ.get("VERIF_C23_DEV", "")  # development aid: "nomc" skips TLC model checking, "nosim" the simulations
+    cex = [] if "nomc" in dev else model_checks(ctx)
+
+    # ---- schedules on the real code
+    scen = json.load(open(SCENARIOS))
+    sched = list(scen)
+    for cfg, b in cex:
+        sched.append([{"a": "Scenario", "name": "cex:" + cfg, "cs": CFG_CS[cfg]}] + b)
+    nsim = 0
+    for cfg, num, depth, want in (("SeriesCache_beh.cfg", 400 if th else 80, 16, 300 if th else 40),
+                                  ("SeriesCache_beh3.cfg", 400 if th else 60, 20, 300 if th else 30)):
+        for b in ([] if "nosim" in dev else simulated_behaviours(ctx, cfg, num, depth, want)):
+            sched.append([{"a": "Scenario", "name": "sim:" + cfg, "cs": CFG_CS[cfg]}] + b)
+            nsim += 1
+    res = drive(ctx, "TestVerifC23Sched", "sched", inp=sched, env={"VERIF_C23_LANES": 6}, timeout=2400)
+    if res is not None:
+        ninfra = res.get("counters", {}).get("infra", 0)
+        if ninfra > max(3, len(sched) // 10):
+            raise Infra("schedule driver could not steer %d steps: %s" % (ninfra, (res.get("notes") or [])[:5]))
+        acc = judge_traces(ctx, res["files"], "sched")
+        c = res.get("counters", {})
+        ctx.ev.add_impl("scheduled runs of the real cache2 accepted by SeriesCacheAbsTrace", acc, steps=res["steps"],
+                        scenarios=len(scen), from_model_counterexamples=len(cex), from_simulated_behaviours=nsim,
+                        distinct_classes=res.get("distinct"),
+                        load_decisions_compared_with_model=c.get("l2_compared", 0), load_decisions_agreeing=c.get("l2_agree", 0))
+        ctx.ev.sample({"scenario": scen[0]})
+        if sched[len(scen):]:
+            ctx.ev.sample({"schedule_from_tlc": sched[-1]})
+
+    # ---- random concurrent runs of the real code
+    env = {"VERIF_C23_LANES": 8 if th else 4, "VERIF_C23_NRUNS": 75 if th else 12}
+    res = None if "norandom" in dev else drive(ctx, "TestVerifC23Random", "random", env=env, timeout=2400)
+    if res is not None:
+        acc = judge_traces(ctx, res["files"], "random")
+        ctx.ev.add_impl("random concurrent runs of the real cache2 accepted by SeriesCacheAbsTrace", acc, steps=res["steps"],
+                        distinct_classes=res.get("distinct"))
+        for s in (res.get("samples") or [])[:2]:
+            ctx.ev.sample({"random_run": s})
+        if res.get("consts", {}).get("invalidateLingerNs") != 15000000000:
+            raise Infra("invalidateLinger changed: %s" % res.get("consts"))
+
+    # ---- the same random driver under the race detector (sanity aid: a report is not a verdict)
+    if th and os.environ.get("VERIF_C23_RACE", "1") == "1":
+        r2, out, rc = ctx.go_test("internal/api", "TestVerifC23Random", env={"VERIF_C23_LANES": 4, "VERIF_C23_NRUNS": 15},
+                                  timeout=2400, race=True)
+        n = out.count("WARNING: DATA RACE")
+        ctx.ev.set("race_detector_reports", n)
+        if n:
+            p = ctx.save("race_reports.log", out[-60000:])
+            raise Infra("the race detector reports %d data race(s) in the random driver run, see %s" % (n, p))
+        ctx.need_result(r2, out, rc, "TestVerifC23Random (race build)")
+
+    ctx.ev.assume("freshness is read as real-time order of non-overlapping operations: rows of load L are forbidden for request G "
+                  "iff an invalidation I of the slot exists with L finished < I began and I completed < G began; a load's "
+                  "'finished' is the instant the storage stub reads the storage, immediately before it returns")
+    ctx.ev.assume("invalidate calls do not overlap each other (the product has one invalidation goroutine and cache2Shard keeps "
+                  "one iteration cursor for it); trimming is done by the cache's single trim goroutine")
+    ctx.ev.assume("wall clock readings do not decrease (the cache orders loads and invalidations by time.Now().UnixNano())")
+    ctx.ev.assume("play-mode requests are only required to return (the statement constrains non-play requests)")
+    ctx.ev.assume("'waits forever': after every load has returned and every gate of the driver is open, a request that has "
+                  "not returned within VERIF_C23_DEADLINE_S (120 s) while its goroutine sleeps inside the cache")
+    ctx.ev.assume("layer 2 models one bucket; requests of different queries only share the accounting and the memory limits "
+                  "(mixing of queries is checked on the real code: every row carries its query)")
